@@ -71,6 +71,29 @@ def gen_logs(rng, spec, variants):
     return logs
 
 
+def add_twin(rng, spec, variants):
+    """a second task class with the SAME task name as an existing one, declared by the main config of one variant (so it lives one
+    namespace above the original) and computing the original lazily inside its own run: two runs of equally named tasks nest"""
+    cands = [v for v in variants if v['ns']]
+    if not cands:
+        return None
+    v = rng.choice(cands)
+    cid = rng.choice(sorted(spec['classes']))
+    c = spec['classes'][cid]
+    if c.get('base', 'Task') != 'Task':
+        return None
+    slug = gen.slug_of(c, spec['module'])
+    ref = v['ns'] + '::' + slug
+    twin = {'name': c['name'], 'group': c['group'], 'base': 'Task', 'params': [{'name': 'tw'}], 'inputs': [{'by': 'name', 'ref': ref}],
+            'kind': 'json', 'run_args': ['tw'], 'pull': [ref], 'in_kinds': {ref: c['kind']}}
+    tid = f'K{len(spec["classes"])}'
+    spec['classes'][tid] = twin
+    main = spec['files']['main_' + v['file']]
+    main['tasks'] = [tid]
+    main['tw'] = rng.randrange(100)
+    return slug
+
+
 def run(ctx):
     quiet()
     import json
@@ -82,8 +105,12 @@ def run(ctx):
     for h in range(n):
         rng = ctx.rng('hist', h)
         spec, variants = machine.gen_family(rng, n_classes=rng.randint(2, 5), kinds=['json', 'json', 'numpy', 'memory', 'generated'])
+        twin = add_twin(rng, spec, variants) if rng.random() < 0.4 else None
+        ctx.count('twin-family' if twin else 'plain-family')
         ops = machine.gen_ops(rng, spec, variants, rng.randint(8, 30), {'fail', 'force'})
         logs = gen_logs(rng, spec, variants)
+        if twin:
+            logs[twin] = [([f'tw{rng.randrange(1000)}-{k}' for k in range(rng.randint(1, 3))], [{'rec': rng.randrange(100)}]) for _ in range(12)]
         b = pl.materialize(spec, root / f'h{h}' / 'src', modname=spec['module'])
         mod = b.module()
         mod.LOGS.clear(); mod.LOGS.update({k: list(v) for k, v in logs.items()}); mod.EMITTED.clear()
